@@ -286,6 +286,21 @@ func boolAnd(a, b value) value {
 
 // symEquals returns x == y (bool or *Term) for type t.
 func symEquals(fr *frame, t types.Type, x, y value) value {
+	// cells of an emulated reflect.Value (see reflect.go)
+	if xr, ok := x.(rtype); ok {
+		yr, ok2 := y.(rtype)
+		return ok2 && xr.t == yr.t
+	}
+	if _, ok := y.(rtype); ok {
+		return false
+	}
+	if xb, ok := x.(*rbox); ok {
+		yb, _ := y.(*rbox)
+		return xb == yb
+	}
+	if _, ok := y.(*rbox); ok {
+		return false
+	}
 	switch xv := x.(type) {
 	case *Term:
 		return norm(mkEq(xv, termOf(y)), boolType)
